@@ -14,7 +14,7 @@ ASSUMPTIONS = [
     "everything inside the stdlib email package (header splitting, folding, RFC 2047 decoding, surrogate escapes, transfer encodings, "
     "multipart) is an oracle: the model starts from the header list and payload it returns",
     "round trip: values are well formed (single line, no surrounding white space, non-empty lists/dicts/description, keywords and "
-    "Project-URL labels without commas, no text that looks like an RFC 2047 encoded word)",
+    "Project-URL labels without commas)",
 ]
 TRUSTED_EXTRA = ["email.parser.Parser/BytesParser(policy=compat32), Message.items/get_payload, email.header.decode_header/make_header: "
                  "harness/impl/email_impl.py extract() repeats parse_email's calls to obtain the model's input"]
@@ -71,7 +71,8 @@ def to_source(rng, doc):
 
 
 # ---- well-formed RawMetadata for the round trip
-RT_S = ["x", "a b", "café", "1.0", "ünï", "http://u/v?w=1", "text/markdown; variant=GFM", ">=3.8", "", "a, b", "x:y", "tab\tin", "日本"]
+RT_S = ["x", "a b", "café", "1.0", "ünï", "http://u/v?w=1", "text/markdown; variant=GFM", ">=3.8", "", "a, b", "x:y", "tab\tin", "日本",
+        "=?utf-8?q?caf=C3=A9?=", "=?utf-8?q?x?= é", "a  b", "x =?bogus", "{x}"]
 RT_K = ["k1", "k 2", "é", "x:y", "a;b"]
 RT_L = ["Home", "Docs", "Bug Tracker", "é", "x:y", ""]
 STRING_K = ["metadata_version", "name", "version", "summary", "description", "home_page", "author", "author_email", "license", "download_url", "maintainer",
@@ -106,7 +107,7 @@ def enc_dict(d):
 def streams(rng, tier):
     q = tier == "quick"
     docs = []
-    for _ in range(4000 if q else 100000):
+    for _ in range(4000 if q else 250000):
         docs.append(("documents",) + to_source(rng, rand_doc(rng)))
     # small exhaustive sweep: every pair of header lines over a small set of names x values, with and without body
     names = ["Name", "name", "Keywords", "Project-URL", "Description", "Classifier", "X-Y"]
@@ -120,7 +121,7 @@ def streams(rng, tier):
     # mutations of a realistic METADATA file
     base = ("Metadata-Version: 2.1\nName: sample\nVersion: 1.0\nSummary: A sample\nKeywords: a,b, c\nProject-URL: Home, https://x\nProject-URL: Docs, https://y\n"
             "Classifier: A :: B\nClassifier: C\nRequires-Dist: foo>=1\nDescription-Content-Type: text/markdown;\n variant=GFM\n\nLong description\nhere\n")
-    for _ in range(800 if q else 20000):
+    for _ in range(800 if q else 50000):
         docs.append(("mutations",) + to_source(rng, gen.mutate(rng, base, list(":\n ,=?-") + ["Name", "é", "\t", "\r"])))
     ext = core.run_impl(IMPL_MODULE, [("e.extract", [k, t]) for _, k, t in docs])
     cases = []
@@ -131,7 +132,7 @@ def streams(rng, tier):
             continue
         cases.append(Case(stream, "e.parse", [("X" if kind == "s" else "B") + text] + json.loads(toks)))
         if stream != "sweep-pairs" or not q: cases.append(Case(stream + "-law", "law.e.spec", [kind, text], kind="law"))
-    for _ in range(2000 if q else 50000):
+    for _ in range(2000 if q else 100000):
         cases.append(Case("law-roundtrip", "law.e.roundtrip", enc_dict(rand_raw(rng)), kind="law"))
     return cases
 
